@@ -30,6 +30,32 @@ theorem cfg_good : cfg.Good := by decide
 /-- every row of the translator's method table was understood (no unknown file / memo function) -/
 theorem cfg_meths_complete : cfg.meths.length = Gen.C16.meths.length := by decide
 
+/-- no token of any translator list was dropped by the parsers of Model/C16Gen.lean (an unknown file, memo function or
+    exception class would silently disappear from `cfg` otherwise) -/
+theorem cfg_lists_complete :
+    cfg.memoProc.length = Gen.C16.memoProc.length ∧ cfg.memoFront.length = Gen.C16.memoFront.length ∧
+    cfg.frontActivate.length = Gen.C16.frontActivate.length ∧
+    cfg.frontDeactivate.length = Gen.C16.frontDeactivate.length ∧
+    cfg.procActivate.length = Gen.C16.procActivate.length ∧
+    cfg.procDeactivate.length = Gen.C16.procDeactivate.length ∧
+    cfg.adCatches.length = Gen.C16.adCatches.length ∧
+    Gen.C16.methAlt.all (fun r => (cfg.meths.find? (fun m => m.name == r.1)).any (fun m => m.alt.isSome)) = true := by
+  decide
+
+/-- **the method table agrees with the documentation** (docs/index.rst, table of `oneshot()`, column Linux —
+    `Spec.docGroups`, written from the docs): every modelled method the docs put into the stat / status / smaps group
+    reads that record FIRST (through the cached helper: `cfg_good.memoProc`), and a method that tries another file
+    first falls back to the documented one. Pins the per-method `srcs` of the translator's table, which model and
+    specification share. -/
+theorem cfg_doc_groups :
+    docGroups.all (fun g => g.2.all (fun n =>
+      match cfg.meths.find? (fun m => m.name == n) with
+      | some m => m.srcs.head? == some g.1
+      | none => true)) = true ∧
+    (docGroups.flatMap (·.2)).filter (fun n => (cfg.meths.find? (fun m => m.name == n)).isSome) =
+      ["cpu_num", "cpu_times", "name", "ppid", "gids", "num_ctx_switches", "num_threads", "uids", "username",
+       "memory_full_info", "memory_maps"] := by decide
+
 /-- **value at first read.** For EVERY history (enter, exit normally or by exception, nested
     blocks, calls, content changes, EACCES, zombie, gone, as_dict anywhere) the transcription of
     memoize_when_activated/oneshot/as_dict answers exactly what the specification answers, where
@@ -142,6 +168,90 @@ theorem C16_reads_characterised :
 
 example : cleanOp cfg (.call 0) = true ∧ cleanOp cfg (.call 1) = false := by decide
 
+/- ---- two recorded deviations from the LITERAL wording of clause 1 ("every method returns what it would return … at the
+   moment its underlying source was first read in that block"). `C16_value_at_first_read` is proved against a
+   specification that shares the method table with the model and freezes exactly the three records the property names
+   (+ the four front-end results oneshot()'s comments name); it therefore cannot see the two cases below, which are
+   stated here against the wording itself and refuted on the code as it is. ---- -/
+
+/-- the value of a successful call -/
+def okVal : Out → Option Val
+  | .ret (.ok v) => some v
+  | _ => none
+
+/-- literal clause 1 for the two methods that share /proc/<pid>/statm: inside one block memory_full_info() (row 10)
+    reports, for statm, the content memory_info() (row 9) was given earlier in that block -/
+def C16_statm_one_content_per_block_Full : Prop :=
+  ∀ (blk : List Op) (i j : Nat) (v1 v2 : Val), staysIn 1 blk = true → i < j →
+    blk[i]? = some (.call 9) → blk[j]? = some (.call 10) →
+    ((outs cfg Sys.init (.enter :: blk))[i + 1]?).bind okVal = some v1 →
+    ((outs cfg Sys.init (.enter :: blk))[j + 1]?).bind okVal = some v2 → v2.getLast? = v1.head?
+
+/-- … is false of the code (finding C16-statm-reread-in-block): the platform memory_full_info() calls the PLATFORM
+    memory_info(), which is not memoised (only the front-end memory_info() is), so statm is read again and a change
+    in between shows: `with p.oneshot(): p.memory_info(); <statm changes>; p.memory_full_info()`. statm is not one
+    of the three records the property lists for "read at most once"; only the value clause is concerned. -/
+theorem C16_statm_reread_in_block : ¬ C16_statm_one_content_per_block_Full := by
+  intro h
+  have := h [.call 9, .setVer .statm 2, .call 10] 0 2 [.data 1] [.data 1, .data 2] (by decide) (by decide) rfl rfl
+    (by decide) (by decide)
+  revert this
+  decide
+
+example : (cfg.meths[9]?).map (·.name) = some "memory_info" ∧ (cfg.meths[10]?).map (·.name) = some "memory_full_info" ∧
+    (cfg.meths[0]?).map (·.name) = some "name" ∧ (cfg.meths[1]?).map (·.name) = some "ppid" := by decide
+
+/-- literal clause 1 for a guarded method: once name() (row 0) has read `stat` in a block, ppid() (row 1, same record)
+    answers from that first read for the rest of the block -/
+def C16_guarded_answers_from_first_read_Full : Prop :=
+  ∀ (blk : List Op) (i j : Nat) (v1 : Val), staysIn 1 blk = true → i < j →
+    blk[i]? = some (.call 0) → blk[j]? = some (.call 1) →
+    ((outs cfg Sys.init (.enter :: blk))[i + 1]?).bind okVal = some v1 →
+    ((outs cfg Sys.init (.enter :: blk))[j + 1]?).bind okVal = some v1
+
+/-- … is false of the code, by design (finding C16-guard-reports-gone-now): ppid() first re-validates the PID
+    (`_raise_if_pid_reused()`), and since C01's fix that guard raises NoSuchProcess for a process `is_running()` has
+    seen gone — a truthful answer about NOW instead of the block's frozen `stat`. (A front-end cache HIT — ppid() called
+    before the process went — still answers from the first read: `C16_reads_characterised` (4).) -/
+theorem C16_guard_reports_gone_now : ¬ C16_guarded_answers_from_first_read_Full := by
+  intro h
+  have := h [.call 0, .setState .gone, .call 1] 0 2 [.data 1] (by decide) (by decide) rfl rfl (by decide)
+  revert this
+  decide
+
+/-- the translator fact behind it is pinned: the guard refuses a process seen gone (C01's landed fix) -/
+theorem cfg_guard_raises_when_gone : Gen.C16.guardRaisesWhenGone = true := by decide
+
+/-- **smaps_rollup and its fallback** (`Meth.alt`/`Meth.eff`): memory_full_info() reads smaps_rollup and statm where the
+    kernel offers the file for a live process, smaps (through the cached helper) and statm otherwise; no other
+    modelled method has a tried-first file. Both worlds are histories of the model (`Op.setAbsent`), so every
+    sequential theorem covers both. -/
+theorem cfg_rollup_paths :
+    (cfg.meths.filter (fun m => m.alt.isSome)).map (fun m => (m.name, m.alt, m.srcs)) =
+      [("memory_full_info", some Src.rollup, [Src.smaps, Src.statm])] ∧
+    (∀ m ∈ cfg.meths, ∀ w : World, w.absent .rollup = true → m.eff w = m.srcs) ∧
+    (∀ w : World, w.absent .rollup = false → w.st = .alive →
+      (cfg.meths[10]?).map (fun m => m.eff w) = some [Src.rollup, Src.statm]) := by
+  refine ⟨by decide, ?_, ?_⟩
+  · intro m hm w hw
+    have hall : cfg.meths.all (fun m => m.alt == none || m.alt == some Src.rollup) = true := by decide
+    have := List.all_eq_true.mp hall m hm
+    unfold Meth.eff
+    cases ha : m.alt with
+    | none => rfl
+    | some a =>
+      rw [ha] at this
+      have : a = Src.rollup := by simpa using this
+      subst this
+      simp [hw]
+  · intro w hw hst
+    have : (cfg.meths[10]?) = some ⟨"memory_full_info", none, false, false, [.smaps, .statm], false, some .rollup⟩ := by decide
+    rw [this]
+    simp [Meth.eff, hw, hst]
+
+example : okVal ((outs cfg Sys.init [.call 10, .setAbsent .rollup true, .call 10, .setVer .rollup 7, .call 10])[0]?.getD .unit) =
+    some [.data 1, .data 1] := by decide
+
 /-- **fresh after exit.** Outside every block a call's result depends on the current world only
     (`bodyG` = the method computed from scratch on a fresh specification state) … -/
 theorem C16_fresh_after_exit (ops : List Op) (m : Meth)
@@ -185,7 +295,8 @@ theorem C16_as_dict_keys (a : AsDictArg) (st st' : St) (w : World) (kvs : List (
    fun himp hnc => ⟨asDict_keys_all cfg cfg_good a st w st' kvs himp hnc h,
                     fun hni => asDict_keys_all_eq cfg cfg_good a st w st' kvs himp hnc h hni⟩⟩
 
-/-- **as_dict policy.** AccessDenied and ZombieProcess never come out of as_dict (they become
+/-- **as_dict policy, the "never escape" half only** (the full per-name policy is `C16_as_dict_per_name_policy`).
+    AccessDenied and ZombieProcess never come out of as_dict (they become
     ad_value; the full per-name policy — NoSuchProcess propagates, NotImplementedError skipped
     unless asked for — is the specification's `loopS`, which `C16_value_at_first_read` shows the
     code follows), and no modelled method raises NotImplementedError. -/
@@ -197,6 +308,16 @@ theorem C16_as_dict_policy (a : AsDictArg) (st : St) (w : World) :
     `names` (list, tuple, set, frozenset); str, bytes, dict, dict views, range, deque, generators
     and everything else are kind `nonCollection` (TypeError) -/
 theorem cfg_collection_types : Gen.C16.collectionTypes = ["list", "tuple", "set", "frozenset"] := by decide
+
+/-- **which names as_dict() may call** (obligation on `_as_dict_attrnames`): the set is dir(Process) minus the
+    underscore names minus the exclusion set in the source (runtime dump = static extraction), it contains none of
+    the attributes that are not read-only getters (`Spec.notGetters`, written from the documentation: as_dict() never
+    calls kill(), wait(), …), it is what the model validates against, and the loop runs inside `with self.oneshot()`. -/
+theorem cfg_valid_names :
+    Gen.C16.validNames = Gen.C16.publicAttrs.filter (fun n => !Gen.C16.asDictExcluded.contains n) ∧
+    notGetters.all (fun n => !Gen.C16.validNames.contains n) = true ∧
+    notGetters.all (fun n => Gen.C16.asDictExcluded.contains n || !Gen.C16.publicAttrs.contains n) = true ∧
+    cfg.validNames = Gen.C16.validNames ∧ Gen.C16.asDictUsesOneshot = true := by decide
 
 /-- **as_dict, per-name policy (one loop iteration, any position, any accumulated prefix).** A value
     is kept under its name; AccessDenied and ZombieProcess become ad_value under that name and the
@@ -673,10 +794,11 @@ example : (runD cfgAsIs St.init nestedActs).thr 0 = ⟨.inNoop, .ret 0 20 ⟨5, 
 example : let s := runD cfgAsIs St.init (nestedActs ++ [stp 0, .thr 0 .beginExit, stp 0])
     s.thr 0 = ⟨.inBlock, .idle, []⟩ ∧ s.lock = some 0 ∧ s.attrF = some 3 ∧ s.attrP = some 6 := by decide
 
-/- ---- the candidate repair `cacheOwnerOnly` (fixes/C16-cache-owner-only.diff): cache_activate tags the dict with the
+/- ---- `cacheOwnerOnly` (fix 447541f, LANDED; was fixes/C16-cache-owner-only.diff): cache_activate tags the dict with the
    activating thread, the wrapper consults / fills the cache only when called by that thread. Fact `cacheOwnerOnly`
-   (false for today's code) → `CCfg2.ownerOnly`. All theorems above hold for both settings; with `ownerOnly = true` the two
-   recorded findings become theorems at FULL strength. ---- -/
+   (true for the code as it is: `cfg_cache_owner_only`, `cfg_owner_test`) → `CCfg2.ownerOnly`. All theorems above hold for
+   both settings; with `ownerOnly = true` the two former findings are theorems at FULL strength. `cfgAsIs` below is the
+   PRE-fix shared cache (`ownerOnly := false`), kept for the counterexamples. ---- -/
 
 /-- the literal cross-thread clause of the property: a value returned to a PLAIN caller (a thread that is
     not inside a oneshot() block of its own) was the content of its source at a moment of the call itself -/
@@ -731,8 +853,8 @@ theorem C16_entries_write_once_owner_only (c : CCfg2) (ho : c.ownerOnly = true) 
     (as : List Action) (d : Nat) (k : Key) (e : Entry) (he : s.ents d k = some e) : (runD c s as).ents d k = some e :=
   runD_ents_keep ho hc as h d k e he
 
-/-- what the integrator turns into an obligation (`… := by decide`) once the repair has landed: for the generated
-    configuration the two full-strength statements follow from the single fact `cacheOwnerOnly = true` -/
+/-- for the generated configuration the two full-strength statements follow from the single fact
+    `cacheOwnerOnly = true` (discharged by the obligation `cfg_cache_owner_only` in `C16_cross_thread_full_strength`) -/
 theorem C16_full_strength_if_cache_owner_only (ho : Gen.C16.cacheOwnerOnly = true) :
     C16_value_valid_Literal_two_level ccfg2 ∧
     (∀ (s : St), Reach ccfg2 s → ∀ (as : List Action) (d : Nat) (k : Key) (e : Entry),
@@ -745,9 +867,22 @@ theorem C16_full_strength_if_cache_owner_only (ho : Gen.C16.cacheOwnerOnly = tru
     breaks this theorem -/
 theorem cfg_cache_owner_only : Gen.C16.cacheOwnerOnly = true := by decide
 
-/-- **C16_cross_thread_full_strength.** For the code as it is now: the LITERAL cross-thread clause (every returned
-    value was the source's content at a moment of that very call, for every interleaving of any number of threads
-    over both cache levels) and the stability of the block owner's first read. -/
+/-- … and WHERE the wrapper tests the owner: as a statement of its own body between the unpacking attribute load and
+    the `cache[fun]` lookup (the models bypass at the load, f0 / p0 / w0: a foreign thread never even looks up). A test
+    that only guards the store ("after-lookup": foreign threads would get hits again) breaks this theorem. The tagged
+    pair and the unpacking go together, and both lookup failures (no attribute, no entry) are handled. -/
+theorem cfg_owner_test :
+    Gen.C16.ownerTest = "before-lookup" ∧ Gen.C16.ownerShapeConsistent = true ∧
+    Gen.C16.lookupHandles = ["AttributeError", "KeyError"] := by decide
+
+/-- **C16_cross_thread_full_strength.** For the code as it is now: the LITERAL cross-thread clause for PLAIN callers
+    (threads outside any oneshot() block of their own — the threads the property's last sentence speaks about: every value
+    returned to one of them was the source's content at a moment of that very call, for every interleaving of any number
+    of threads over both cache levels; a block owner's in-block values are covered by the interval theorem
+    `C16_value_valid_at_some_moment_two_level`), and the stability of the block owner's first read at the level of
+    cache ENTRIES (an entry, once written, is never replaced; the return-level statement
+    `C16_owner_first_read_stable_two_level_Full` is refuted for the pre-fix wrapper shapes only and NOT derived here
+    for `ccfg2` — it would follow from write-once + "a hit returns the entry", which is not stated as a theorem). -/
 theorem C16_cross_thread_full_strength :
     C16_value_valid_Literal_two_level ccfg2 ∧
     (∀ (s : St), Reach ccfg2 s → ∀ (as : List Action) (d : Nat) (k : Key) (e : Entry),
